@@ -27,7 +27,7 @@ void Exec::op_stmt(const Json& o){
   s.expr=E_ADD; for(int i=0;i<E_NKINDS;i++) if(es==expr_names[i]) s.expr=i;
   s.target=slot_of(o,"t"); s.a.slot=slot_of(o,"a"); s.b.slot=slot_of(o,"b");
   s.a.cat=(int)(o["ca"].as_int(0)%3); s.b.cat=(int)(o["cb"].as_int(0)%3);
-  s.x=o["x"].as_num(0.5); s.fn=(int)(o["fn"].as_int(0)&1); s.nest=(int)(o["nest"].as_int(0)%10);
+  s.x=o["x"].as_num(0.5); s.fn=(int)(o["fn"].as_int(0)&1); s.nest=(int)(o["nest"].as_int(0)%12);
   int want_flags=(int)(o["flags"].as_int(0)&7);
   if(is_unary(s.expr)){ s.b=s.a; }
   if(s.expr==E_NESTED){ s.a.cat=CAT_LVALUE; s.b.cat=CAT_LVALUE; if(s.nest==8) s.a.cat=CAT_MOVE; }
